@@ -14,7 +14,9 @@ import AtreeModel.Codec.Encode
         the index of any other call (`repeated_use_changes_nothing`).
     `findDuplicateTypeInfo_perm`          the list of type infos that are written once and referred to by
         index depends only on the MULTISET of the entries' encoded type infos (it sorts), not on their
-        order.
+        order;
+    `findDuplicateTypeInfo_spec`          and is: the encoded type infos that occur at least twice, each
+        once, in strictly ascending order.
 
   The Go code keeps the keys seen so far in two Go maps (`arrayExtraDataSet`, `compactMapTypeSet`) and
   `findDuplicateTypeInfo` returns a Go map; the model's lookups are first-match searches in lists.
@@ -157,6 +159,162 @@ theorem findDuplicateTypeInfo_perm (xs ys : List XD)
 theorem findDuplicateTypeInfo_perm' (xs ys : List XD) (h : xs.Perm ys) :
     findDuplicateTypeInfo xs = findDuplicateTypeInfo ys :=
   findDuplicateTypeInfo_perm xs ys (h.map _)
+
+/-! ### What `findDuplicateTypeInfo` computes -/
+
+theorem bytesLt_of_le_of_ne {a b : Bytes} (h : bytesLe a b) (hne : a ≠ b) : bytesLt a b = true := by
+  cases hab : bytesLt a b with
+  | true => rfl
+  | false => exact absurd (bytesLt_total hab h) hne
+
+/-- the scan over a sorted list: which strings it records -/
+theorem mem_dupScan_sorted (b : Bytes) : ∀ (l : List Bytes) (prev : Bytes) (e : Bool),
+    l.Pairwise bytesLe → (∀ y ∈ l, bytesLe prev y) →
+    (b ∈ dupScan prev e l ↔ (b = prev ∧ e = false ∧ prev ∈ l) ∨ (b ≠ prev ∧ 2 ≤ l.count b))
+  | [], prev, e, _, _ => by simp [dupScan]
+  | x :: rest, prev, e, hs, hp => by
+    have hx : ∀ y ∈ rest, bytesLe x y := (List.pairwise_cons.mp hs).1
+    have hrest := (List.pairwise_cons.mp hs).2
+    have hpx : bytesLe prev x := hp x (by simp)
+    unfold dupScan
+    by_cases hxp : x = prev
+    · subst hxp
+      have ih := mem_dupScan_sorted b rest x true hrest hx
+      simp only [beq_self_eq_true, if_true]
+      cases e with
+      | true =>
+        simp only [if_true, ih]
+        constructor
+        · rintro (⟨_, h, _⟩ | ⟨hne, hc⟩)
+          · cases h
+          · exact .inr ⟨hne, by rw [List.count_cons_of_ne (Ne.symm hne)]; exact hc⟩
+        · rintro (⟨_, h, _⟩ | ⟨hne, hc⟩)
+          · cases h
+          · exact .inr ⟨hne, by rw [List.count_cons_of_ne (Ne.symm hne)] at hc; exact hc⟩
+      | false =>
+        simp only [Bool.false_eq_true, if_false, List.mem_cons, ih]
+        constructor
+        · rintro (h | ⟨_, h, _⟩ | ⟨hne, hc⟩)
+          · exact .inl ⟨h, trivial, .inl trivial⟩
+          · cases h
+          · exact .inr ⟨hne, by rw [List.count_cons_of_ne (Ne.symm hne)]; exact hc⟩
+        · rintro (⟨h, _, _⟩ | ⟨hne, hc⟩)
+          · exact .inl h
+          · exact .inr (.inr ⟨hne, by rw [List.count_cons_of_ne (Ne.symm hne)] at hc; exact hc⟩)
+    · have hne : (x == prev) = false := by simpa using hxp
+      have ih := mem_dupScan_sorted b rest x false hrest hx
+      have hlt : bytesLt prev x = true := bytesLt_of_le_of_ne hpx (Ne.symm hxp)
+      -- `prev` does not occur any more
+      have hnot : prev ∉ x :: rest := by
+        intro hm
+        rcases List.mem_cons.mp hm with h | h
+        · exact hxp h.symm
+        · have := hx prev h
+          unfold bytesLe at this
+          rw [this] at hlt
+          cases hlt
+      have hc0 : (x :: rest).count prev = 0 := List.count_eq_zero.mpr hnot
+      simp only [hne, Bool.false_eq_true, if_false, ih]
+      constructor
+      · rintro (⟨hb, _, hm⟩ | ⟨hb, hc⟩)
+        · subst hb
+          refine .inr ⟨hxp, ?_⟩
+          rw [List.count_cons_self]
+          have := List.count_pos_iff.mpr hm
+          omega
+        · refine .inr ⟨?_, ?_⟩
+          · intro hbp
+            subst hbp
+            rw [List.count_cons_of_ne hxp] at hc0
+            omega
+          · rw [List.count_cons_of_ne (Ne.symm hb)]; exact hc
+      · rintro (⟨hb, _, hm⟩ | ⟨hb, hc⟩)
+        · exact absurd hm hnot
+        · by_cases hbx : b = x
+          · subst hbx
+            rw [List.count_cons_self] at hc
+            exact .inl ⟨rfl, trivial, List.count_pos_iff.mp (by omega)⟩
+          · rw [List.count_cons_of_ne (Ne.symm hbx)] at hc
+            exact .inr ⟨hbx, hc⟩
+
+/-- the scan over a sorted list: strictly ascending, nothing before `prev` (nor `prev` again once recorded) -/
+theorem dupScan_sorted : ∀ (l : List Bytes) (prev : Bytes) (e : Bool),
+    l.Pairwise bytesLe → (∀ y ∈ l, bytesLe prev y) →
+    (dupScan prev e l).Pairwise (fun a b => bytesLt a b = true) ∧
+    (∀ d ∈ dupScan prev e l, bytesLe prev d ∧ (e = true → bytesLt prev d = true))
+  | [], _, _, _, _ => by simp [dupScan]
+  | x :: rest, prev, e, hs, hp => by
+    have hx : ∀ y ∈ rest, bytesLe x y := (List.pairwise_cons.mp hs).1
+    have hrest := (List.pairwise_cons.mp hs).2
+    have hpx : bytesLe prev x := hp x (by simp)
+    unfold dupScan
+    by_cases hxp : x = prev
+    · subst hxp
+      obtain ⟨i1, i2⟩ := dupScan_sorted rest x true hrest hx
+      simp only [beq_self_eq_true, if_true]
+      cases e with
+      | true => simp only [if_true]; exact ⟨i1, fun d hd => ⟨(i2 d hd).1, fun _ => (i2 d hd).2 rfl⟩⟩
+      | false =>
+        simp only [Bool.false_eq_true, if_false]
+        refine ⟨List.Pairwise.cons (fun d hd => (i2 d hd).2 rfl) i1, ?_⟩
+        intro d hd
+        rcases List.mem_cons.mp hd with rfl | hd
+        · exact ⟨bytesLt_irrefl _, fun h => by cases h⟩
+        · exact ⟨(i2 d hd).1, fun h => by cases h⟩
+    · have hne : (x == prev) = false := by simpa using hxp
+      obtain ⟨i1, i2⟩ := dupScan_sorted rest x false hrest hx
+      have hlt : bytesLt prev x = true := bytesLt_of_le_of_ne hpx (Ne.symm hxp)
+      simp only [hne, Bool.false_eq_true, if_false]
+      refine ⟨i1, fun d hd => ?_⟩
+      have hxd : bytesLe x d := (i2 d hd).1
+      have hpd : bytesLt prev d = true := by
+        cases hdx : bytesLt x d with
+        | true => exact bytesLt_trans hlt hdx
+        | false => have := bytesLt_total hdx hxd; subst this; exact hlt
+      exact ⟨bytesLt_asymm hpd, fun _ => hpd⟩
+
+/-- **What `findDuplicateTypeInfo` is**: the encoded type infos that occur at least twice among the
+    entries, each once, in strictly ascending (Go string) order — a function of the multiset alone. -/
+theorem findDuplicateTypeInfo_spec (xs : List XD) :
+    (findDuplicateTypeInfo xs).Pairwise (fun a b => bytesLt a b = true) ∧
+    ∀ b, b ∈ findDuplicateTypeInfo xs ↔ 2 ≤ (xs.map (fun x => encodeTy x.ty)).count b := by
+  unfold findDuplicateTypeInfo
+  by_cases hl : xs.length < 2
+  · simp only [hl, if_true, List.Pairwise.nil, List.not_mem_nil, false_iff, true_and]
+    intro b hc
+    have := List.count_le_length (a := b) (l := xs.map (fun x => encodeTy x.ty))
+    rw [List.length_map] at this
+    omega
+  · simp only [hl, if_false]
+    have hsorted := sortBytes_sorted (xs.map (fun x => encodeTy x.ty))
+    have hperm := sortBytes_perm (xs.map (fun x => encodeTy x.ty))
+    cases hsb : sortBytes (xs.map (fun x => encodeTy x.ty)) with
+    | nil =>
+      simp only [List.Pairwise.nil, List.not_mem_nil, false_iff, true_and]
+      intro b
+      rw [← hperm.count_eq, hsb]
+      simp
+    | cons a rest =>
+      rw [hsb] at hsorted hperm
+      have ha : ∀ y ∈ rest, bytesLe a y := (List.pairwise_cons.mp hsorted).1
+      have hrest := (List.pairwise_cons.mp hsorted).2
+      refine ⟨(dupScan_sorted rest a false hrest ha).1, fun b => ?_⟩
+      rw [mem_dupScan_sorted b rest a false hrest ha, ← hperm.count_eq b]
+      by_cases hba : b = a
+      · subst hba
+        rw [List.count_cons_self]
+        constructor
+        · rintro (⟨_, _, hm⟩ | ⟨h, _⟩)
+          · have := List.count_pos_iff.mpr hm; omega
+          · exact absurd rfl h
+        · intro hc
+          exact .inl ⟨rfl, rfl, List.count_pos_iff.mp (by omega)⟩
+      · rw [List.count_cons_of_ne (Ne.symm hba)]
+        constructor
+        · rintro (⟨h, _, _⟩ | ⟨_, hc⟩)
+          · exact absurd h hba
+          · exact hc
+        · intro hc; exact .inr ⟨hba, hc⟩
 
 /-! ### The `add…ExtraData` calls: entries are the first uses, in order -/
 
